@@ -86,6 +86,31 @@ def collect_ints(x, out, depth=0):
                 pass
 
 
+def collect_strs(x, out, depth=0, seen=None):
+    seen = seen if seen is not None else set()
+    if depth > 5 or id(x) in seen or len(out) > 200:
+        return
+    seen.add(id(x))
+    if isinstance(x, str):
+        out.append(x)
+    elif isinstance(x, (list, tuple, set, frozenset)):
+        for y in list(x)[:20]:
+            collect_strs(y, out, depth + 1, seen)
+    elif isinstance(x, dict):
+        for k, v in list(x.items())[:20]:
+            collect_strs(k, out, depth + 1, seen)
+            collect_strs(v, out, depth + 1, seen)
+    elif type(x).__module__.startswith(('cylc.', 'contracts.')) or hasattr(x, '__slots__'):
+        names = getattr(x, '__slots__', ())
+        names = [names] if isinstance(names, str) else list(names)
+        names += list(getattr(x, '__dict__', {}))
+        for n in names[:40]:
+            try:
+                collect_strs(getattr(x, n), out, depth + 1, seen)
+            except Exception:
+                pass
+
+
 def native_check(contract, args, kwargs=None, only=None, window=12, with_domain=True):
     """Run the real function on concrete arguments and evaluate the contract.
 
@@ -107,6 +132,10 @@ def native_check(contract, args, kwargs=None, only=None, window=12, with_domain=
     ints = []
     collect_ints(list(env.values()), ints)
     set_native_window(ints, window)
+    strs = []
+    collect_strs(list(env.values()), strs)
+    from .spec import set_native_strings
+    set_native_strings(strs)
     loc = dict(env)
     try:
         for rq in contract.requires + (contract.domain if with_domain else []):
